@@ -692,6 +692,21 @@ def run(ctx: Ctx) -> int:
                     continue
             ctx.oblige("C03.R11", ok, c, "failures of the jsonnet binding (RuntimeError, ValueError) are converted" if ok else f"`evaluate_snippet` runs under handlers for {sorted(have_)} only: a jsonnet file with a NUL byte makes the binding raise ValueError, which leaves parse_args as it is", fn=fn, construct="jsonnet binding failures converted")
 
+    # (3) the key of the config-file option holds the LIST of loaded files (apply_config appends to it,
+    #     get_config_files iterates over it): _check_value_key lets only None or a list through for that action
+    #     (F49: --cfg 'cfg: 3' made apply_config call .append on an int)
+    cvk = ctx.func("_core:ArgumentParser._check_value_key")
+    vpar = cvk.args.args[2].arg
+    good_cf = []
+    for r in [x for x in walk_local(cvk) if isinstance(x, ast.Raise)]:
+        at = guard_atoms(r, stop=cvk)
+        is_cf = any(pol and isinstance(t, ast.Call) and call_leaf(t) == "isinstance" and ast.unparse(t.args[1]) == "ActionConfigFile" for t, pol in at)
+        not_list = any(not pol and isinstance(t, ast.Call) and call_leaf(t) == "isinstance" and ast.unparse(t.args[0]) == vpar and ast.unparse(t.args[1]) == "list" for t, pol in at)
+        if is_cf and not_list and isinstance(r.exc, ast.Call) and call_leaf(r.exc) == "TypeError":
+            good_cf.append(r)
+    ok = bool(good_cf)
+    ctx.oblige("C03.R9", ok, good_cf[0] if good_cf else cvk, "a value for the config-file key that is not a list is rejected with TypeError" if ok else "_check_value_key stores any value under the key of the config-file option: a config that contains that key with a scalar (--cfg 'cfg: 3') makes apply_config call .append on it - AttributeError out of parse_args", fn=cvk, construct="config-file key holds a list")
+
     # ---------------- R10: switches read from the environment are compared case-insensitively -------------------------
     n_envsw = 0
     for fq, fn in list(repo.all_funcs()):
